@@ -6,6 +6,7 @@ from . import common as C
 KANI_DIR = os.path.join(C.VERIF, "kani")
 MEM_CAP_KB = int(os.environ.get("VERIF_KANI_MEM_GB", "14")) * 1024 * 1024
 JOBS = int(os.environ.get("VERIF_JOBS", "12"))
+HARNESS_MOD = "proofs"
 
 
 class H:
@@ -130,10 +131,31 @@ def native_replay(crate, harness, vals, profiles=("dev", "release")):
     return res
 
 
+def miri_replay(crate, harness, vals):
+    """replay a counter-example of an undefined-behaviour class check (invalid/dangling pointer, double free, out of bounds)
+    under Miri, which - unlike a native run - detects it; -> 'ub' | 'clean' | 'error'"""
+    tdir = os.path.join(C.CACHE, "miri-" + crate)
+    try:
+        p = subprocess.run(["cargo", "+nightly", "miri", "run", "--offline", "--bin", "replay", "--", harness, hexvals(vals)],
+                           cwd=C.crate_dir("kani/" + crate), stdout=subprocess.PIPE, stderr=subprocess.STDOUT, timeout=900,
+                           env=C.env(CARGO_TARGET_DIR=tdir, MIRIFLAGS="-Zmiri-disable-isolation", RUST_BACKTRACE="0"))
+    except subprocess.TimeoutExpired:
+        return "error", "timeout"
+    txt = p.stdout.decode(errors="replace")
+    if "Undefined Behavior" in txt or "error: memory leaked" in txt:
+        msg = "\n".join(l for l in txt.splitlines() if "Undefined Behavior" in l or "memory leaked" in l or l.startswith("error"))[:400]
+        return "ub", msg
+    if p.returncode == 0 and "REPLAY-PASS" in txt:
+        return "clean", ""
+    if p.returncode == 101 or "panicked" in txt:
+        return "ub", "panic under Miri: " + "\n".join(l for l in txt.splitlines() if "panicked" in l)[:300]
+    return "error", txt[-300:]
+
+
 def run_harness(crate, h, slot, logdir, playback=False):
     tdir = os.path.join(C.CACHE, "kani-%s-%d" % (crate, slot))
     cmd = ["cargo", "kani", "-Z", "stubbing", "--target-dir", tdir,
-           "--harness", "proofs::" + h.name, "--exact"]
+           "--harness", HARNESS_MOD + "::" + h.name, "--exact"]
     if playback:
         cmd[2:2] = ["-Z", "concrete-playback", "--concrete-playback=print"]
     log = os.path.join(logdir, "%s-%s%s.log" % (crate, h.name, "-pb" if playback else ""))
@@ -246,6 +268,15 @@ def run_all(out, crate, harnesses, sources):
             unit.setdefault("replays", []).append({"check": c["desc"], "values": hexvals(c["vals"]), "native": rep})
             fails = [p for p in ("dev", "release") if rep.get(p) == "fails"]
             ubclass = any(w in c["desc"].lower() for w in UB_WORDS)
+            if not fails and ubclass and all(rep.get(p_) == "passes" for p_ in ("dev", "release")):
+                verdict, msg = miri_replay(crate, h.name, c["vals"])
+                unit["replays"][-1]["miri"] = {"verdict": verdict, "msg": msg}
+                if verdict == "ub":
+                    what = "%s: %s [harness %s, values %s; a native run does not trap, Miri confirms: %s]" % (h.desc, c["desc"], h.name, hexvals(c["vals"]), msg[:200])
+                    out.violation(what, {"engine": "kani", "crate": crate, "harness": h.name, "values": hexvals(c["vals"]), "check": c["desc"], "native": rep, "miri": msg},
+                                  key="%s:%s" % (h.name, c["desc"][:80]))
+                    reported = True
+                    break
             if fails:
                 what = "%s: %s [harness %s, values %s; reproduces natively in %s]" % (
                     h.desc, c["desc"], h.name, hexvals(c["vals"]), "+".join(fails))
